@@ -81,6 +81,7 @@ CHECKS["C01"] = dict(
         R("h_loop", "bound=2 seeds=%s nfd=3 ntm=3 ntk=2 nev=2 nraw=1 nsig=1 ops=%s rules=stale-callback,cookie,oneshot-registered,%s" % (ALL_SEEDS_C01, UNREG_OPS, ABN)),
         # any API action from any callback, 1 deviation
         R("h_loop", "bound=1 seeds=%s,1,5,13,14,15,16,19,20 nfd=3 ntm=3 ntk=2 nev=2 nraw=1 nsig=1 nwk=1 rules=stale-callback,cookie,oneshot-registered,%s" % (ALL_SEEDS_C01, ABN)),
+        R("h_inotify", "bound=1"),
     ],
     thorough=[
         R("h_loop", "bound=3 seeds=%s nfd=3 ntm=3 ntk=2 nev=2 nraw=1 nsig=1 ops=%s rules=stale-callback,cookie,oneshot-registered,%s" % (ALL_SEEDS_C01, UNREG_OPS, ABN), share=0.5),
@@ -196,5 +197,23 @@ CHECKS["C17"] = dict(
                 "RELAY_EOF after the last byte; return value 0/1/-1 and requested bands are compared with the reference after every call",
     assumptions=["rw mode replaces only the pump's two descriptors by a simulated source and sink; splice mode uses the host kernel's "
                  "splice/pipe/socket semantics", "read-write buffer size 4096 as in the source"],
+    deadline=dict(quick=150, thorough=900),
+)
+
+INO_ASSUME = ["real inotify of the host kernel on a tmpfs scratch directory; no filesystem object is watched by two instances "
+              "(the kernel's cross-group notification order is address dependent)",
+              "bursts of <=2 operations before the first poll plus an optional later one; <=4 watches, <=2 instances"]
+CHECKS["C20"] = dict(
+    quick=[R("h_inotify", "bound=1")],
+    thorough=[R("h_inotify", "bound=2")],
+    rule="5 watch-set presets (directory / file / second directory / one-shot / two instances) x 7x7 bursts of filesystem operations "
+         "(create, write, rename within, rename across, unlink, rmdir of a watched directory) x optional second round, all crossed "
+         "(cost-free configuration choices); at every delivered event the handler's action is a choice among {nothing, unregister this "
+         "watch, another watch, an instance (freed at once), register a new watch}; bound = number of non-default handler actions",
+    explanation="the read() wrapper keeps the raw buffer the kernel returned; the harness parses it independently (stride from len) and each "
+                "delivery must be the next record whose watch is still registered in the model, with equal wd/mask/cookie/name; kernel-"
+                "removed and one-shot watches must be out of the instance's watch set when their handler runs; records for live watches "
+                "must not be skipped; freed watches/instances are poisoned (ASan)",
+    assumptions=INO_ASSUME,
     deadline=dict(quick=150, thorough=900),
 )
